@@ -25,6 +25,12 @@ pub fn build(c: Class, last: Option<u8>, rng: &mut Rng) -> (Vec<u8>, u8) {
         if c.hdr_ok && payload_len >= 6 {
             payload[0] = 0; payload[1] = 0; payload[2] = 1;
             payload[3] = *rng.pick(&[0xe0u8, 0xc0, 0xbd, 0xbe, 0xbf, 0xfd]);
+            // PES_packet_length: random, or related to what this packet carries (0 = unbounded; ends exactly with it; one off)
+            match rng.below(6) { 0 => { payload[4] = 0; payload[5] = 0; }
+                                 1 | 2 => { let l = payload_len - 6; payload[4] = (l >> 8) as u8; payload[5] = l as u8; }
+                                 3 => { let l = (payload_len - 6 + 1) as usize; payload[4] = (l >> 8) as u8; payload[5] = l as u8; }
+                                 4 => { let l = (payload_len - 6).saturating_sub(1); payload[4] = (l >> 8) as u8; payload[5] = l as u8; }
+                                 _ => {} }
             if payload_len >= 9 { payload[6] = if rng.chance(5, 6) { 0x80 | (payload[6] & 0x3f) } else { payload[6] }; payload[8] = if rng.chance(3, 4) { 0 } else { payload[8] & 0x0f }; if rng.chance(3, 4) { payload[7] = 0; } }
         } else if payload_len >= 3 {
             // not recognisable: wrong start code (or too short when hdr_ok was requested but does not fit)
